@@ -338,6 +338,10 @@ def run(ctx, chk):
              'epilogue stores; prologue pushes mirror epilogue pops', floor=14)
     chk.rule('C01.9', 'D', 'encode_op produces exactly one code sequence for every defined encoding and diverges for '
              'Invalid', floor=500)
+    chk.rule('C01.12', 'D', 'call frame, value level: abstract execution of the entry trampoline, the block exit and the exit '
+             'trampoline: every Registers field reaches its host register (32 bits for AF BC DE HL, 16 for SP IP cycles) '
+             'and is stored back from it, R14 starts at 0 and is returned in AL, the block exit reaches the exit '
+             'trampoline, callee-saved host registers and the host stack are restored', floor=20)
     chk.rule('C01.11', 'D', 'translation is total: every slice translate_code_block hands to decode() - for a block start '
              'accepted by can_dynarec and for every index the loop can reach - is at least as long as the longest '
              'instruction (no out-of-bounds index / host panic for an instruction at the end of a ROM bank)', floor=2)
@@ -553,6 +557,19 @@ def run(ctx, chk):
     decoder_window(ctx, chk, prog, facts)
     from .. import jitsem
     jitsem.apply_rule(ctx, chk, 'C01.10', lambda c: c != 'cycles')
+    jitsem.apply_frame_rule(ctx, chk, 'C01.12', lambda c: True)
+    if not any(v['rule'] == 'C01.12' for v in chk.violations) and not chk.errors:
+        # C01.8 pattern-matches the trampoline bytes; when the abstract execution (C01.12) proves the frame right, an
+        # unmatched pattern is an unrecognised but equivalent encoding, not a defect
+        keep = []
+        for v in chk.violations:
+            if v['rule'] == 'C01.8' and v['key'] != 'repr':
+                chk.rules['C01.8']['failures'] -= 1
+                chk.info('C01.8 %s: byte pattern not recognised (%s) but C01.12 proves the call frame correct; not reported'
+                         % (v['key'], v['what'][:100]))
+            else:
+                keep.append(v)
+        chk.violations[:] = keep
     jitsem.suppress_subsumed(ctx, chk, ('C01.1', 'C01.2', 'C01.3', 'C01.5', 'C01.6', 'C01.7'))
     chk.assumptions += ['x86-64 semantics of the template bytes are not interpreted: a wrong opcode byte inside an emit_* '
                         'template is outside the reach of this check (DESIGN 2.4); the 60-entry effect table in '
